@@ -22,6 +22,7 @@ THEOREMS = [
     'PbBss.C08.bingham_fit',
     'PbBss.C08.weight_update_mean',
     'PbBss.C08.weight_update_saliency',
+    'PbBss.C08.weight_update_tied_classes',
     'PbBss.C08.saliency_repeat',
     'PbBss.C08.saliency_repeat_exists',
     'PbBss.C08.fit_alternation',
@@ -350,10 +351,12 @@ def mixture_saliency_is_repetition(model, y, emb, init, counts, iterations, opt)
         return Skip('a class collapsed (ill-conditioned parameters): comparison dominated by rounding')
     tol = 1e-6
     wa, wb = np.asarray(a.weight, dtype=np.float64), np.asarray(b.weight, dtype=np.float64)
-    if tuple(tu.wca_axes(opt['weight_constant_axis'])) == (-3,) and model not in ('gcacgmm', 'vmfcacgmm'):
-        wb_cmp = wb[..., np.cumsum(counts) - 1] if wb.shape[-1] == counts.sum() else wb
-    elif tuple(tu.wca_axes(opt['weight_constant_axis'])) == (-3,):
-        wb_cmp = wb[..., np.cumsum(counts) - 1] if wb.ndim and wb.shape[-1] == counts.sum() else wb
+    if lead and tuple(tu.wca_axes(opt['weight_constant_axis'])) == (-3,) and wb.ndim and wb.shape[-1] == counts.sum():
+        # one weight per (class, frame): every copy of a repeated frame carries the weight of the original frame
+        rep_idx = np.repeat(np.arange(len(counts)), counts)
+        if tu.err(wb, wa[..., rep_idx]) > tol:
+            return Fail('mixture-weight-saliency-vs-repetition', f'{model}: per-frame weights with integer saliency differ from the fit on the repeated data')
+        wb_cmp = wa
     else:
         wb_cmp = wb
     if wa.shape != wb_cmp.shape or tu.err(wa, wb_cmp) > tol:
@@ -476,6 +479,8 @@ def mixture_alternation(model, y, emb, init, saliency, iterations, opt):
                 return Fail('vmfcacgmm-embedding-not-normalised', 'VMFCACGMMTrainer.fit feeds the embedding to the vMF M-step '
                             'without the unit normalisation that VMFCACGMM.predict / VonMisesFisherTrainer.fit apply: '
                             + bad[1])
+        if tu.ill_conditioned(model, m):
+            return Skip('a class collapsed (ill-conditioned parameters): comparison dominated by rounding')
         if iterations == 1:
             return Fail(bad[0], bad[1])
         # step-wise form
